@@ -261,6 +261,17 @@ def decl_search():
     want = {"greeting": '"Hello, World <Mr. X>"', "tag": "'MiXeD'", "bind": 'c, name="Get_Answer_C"'}
     if got != want:
         return {"confirmed": True, "input": {"source": src, "lower": True}, "actual": got, "expected": want, "how": "real parser with the option lower: true; literals of initial values, PARAMETER statements and bind names"}
+    # values given by a PARAMETER statement are expressions too: relational operators hold `=`
+    src = ("module m\n  integer, parameter :: n = 3\n  logical small, same, differ, big\n  character(len=6) :: op\n"
+           "  parameter (small = n <= 3, same = n == 4, differ = n /= 2, big = merge(1, 2, n >= 2) == 1)\n  parameter (op = 'a <= b')\nend module m\n")
+    try:
+        m = realrun.parse_source(src).modules[0]
+        got = {v.name: str(v.initial).replace(" ", "") for v in m.variables if v.name != "n"}
+    except Exception as ex:
+        got = f"{type(ex).__name__}: {ex}"
+    want = {"small": "n<=3", "same": "n==4", "differ": "n/=2", "big": "merge(1,2,n>=2)==1", "op": "'a<=b'"}
+    if got != want:
+        return {"confirmed": True, "input": {"source": src}, "actual": got, "expected": want, "how": "real parser; initial values given by PARAMETER statements (blanks aside)"}
     # the suffix of a function statement: RESULT and BIND in either order; the binding label is the text inside bind(...) and nothing else
     for stmt, bindc, res in (('function f(x) bind(c, name="f_c") result(rr)', 'c, name="f_c"', "rr"), ('function f(x) result(rr) bind(c, name="f_c")', 'c, name="f_c"', "rr"),
                              ("function f(x) bind(c) result(rr)", "c", "rr"), ("function f(x) result(rr)", None, "rr"), ("function f(x) bind(C, name='q(1)')", "C, name='q(1)'", "f")):
